@@ -172,7 +172,7 @@ def run(ctx):
         return i, j
 
     # ---------------- 1. direction increments -------------------------------------------
-    for q in range(ctx.n(40, 400)):
+    for q in range(ctx.n(40, 1000)):
         n = rng.choice(NS_ALL + [rng.randint(8, 180)])
         kindg = rng.choice(["linspace", "linspace", "offset", "nonuniform"])
         if kindg == "linspace":
@@ -182,7 +182,9 @@ def run(ctx):
         else:
             cuts = sorted(rng.uniform(0, 360) for _ in range(n))
             dirs = cuts
-            if min((b - a) for a, b in zip(cuts, cuts[1:] + [cuts[0] + 360])) < 1e-3:
+            gaps = [(b - a) for a, b in zip(cuts, cuts[1:] + [cuts[0] + 360])]
+            # the midpoint rule with wrapped differences needs every cyclic gap < 180 degrees (DESIGN section 7)
+            if min(gaps) < 1e-3 or max(gaps) > 170:
                 dirs = grid_deg(n)
                 kindg = "linspace"
         th = to_rad(dirs)
@@ -190,7 +192,7 @@ def run(ctx):
         post.append(("incr", i, j, kindg, n, th))
 
     # ---------------- 2. MEM closed form -------------------------------------------------
-    for q in range(ctx.n(400, 4000)):
+    for q in range(ctx.n(400, 10000)):
         n = rng.choice(NS_ALL + [rng.randint(8, 180)])
         off = rng.choice([0.0, 0.0, C.dyadic(rng, -180, 180, 10)])
         th = to_rad(grid_deg(n, off))
@@ -202,7 +204,7 @@ def run(ctx):
         post.append(("mem", i, j, kind, n, th, m))
 
     # ---------------- 3. MEM2 distribution for arbitrary multipliers ---------------------
-    for q in range(ctx.n(400, 4000)):
+    for q in range(ctx.n(400, 10000)):
         n = rng.choice(NS_ALL + [rng.randint(8, 180)])
         th = to_rad(grid_deg(n, rng.choice([0.0, C.dyadic(rng, -180, 180, 10)])))
         mag = 10 ** rng.uniform(-3, rng.choice([1, 2, 3, 4]))
@@ -220,7 +222,7 @@ def run(ctx):
         post.append(("dist", i, j, dk, n, th, lam, d))
 
     # ---------------- 4. estimate_directional_distribution on batches --------------------
-    nb = ctx.n(60, 900)
+    nb = ctx.n(60, 2500)
     for q in range(nb):
         n = rng.choice(NS_ALL + [rng.randint(8, 180)])
         dirs = grid_deg(n)
@@ -255,7 +257,7 @@ def run(ctx):
             post.append(("est", i, j, method, sm, mv, n, dirs, shape, entries))
 
     # ---------------- 5. spectrum objects: 1D -> 2D -> 1D -------------------------------
-    for q in range(ctx.n(24, 200)):
+    for q in range(ctx.n(24, 500)):
         n = rng.choice([8, 12, 24, 36, 36, 72, rng.randint(8, 120)])
         lead = rng.choice([(), (rng.randint(1, 3),), (rng.randint(1, 2), rng.randint(1, 3))])
         nf = rng.randint(2, 6)
